@@ -104,7 +104,8 @@ func VxH_C08_var() {
 func VxH_C08_var_shorthand() {
 	// --p uses --m twice (an acyclic "diamond"); --q reaches --m through --p
 	decl := []string{"margin: 1px 2px 3px var(--m)", "margin: var(--m)", "padding: 1px var(--m)", "border-width: var(--m) 2px",
-		"padding: var(--p)", "margin: var(--q) var(--m)", "padding-left: calc(var(--m) + var(--m))"}[vx.Choose("decl", 7)]
+		"padding: var(--p)", "margin: var(--q) var(--m)", "padding-left: calc(var(--m) + var(--m))",
+		"padding-left: foo(bar(var(--m)))", "margin: 1px foo(bar(baz(var(--p))))"}[vx.Choose("decl", 9)]
 	mdef := []string{"4px", "0", "auto", "red"}[vx.Choose("m", 4)]
 	root := &utils.HTMLNode{Type: html.ElementNode, Data: "html", DataAtom: atom.Html}
 	body := &html.Node{Type: html.ElementNode, Data: "body", DataAtom: atom.Body}
